@@ -30,9 +30,13 @@ class Oracle:
         self.default_prop = default_prop
         self.clause_props = clause_props or {}
         self.violation: dict[str, Any] | None = None
+        self.current_op: dict[str, Any] | None = None
 
     def flag(self, clause: str, signature: str, detail: Any, prop: str | None = None) -> None:
         if self.violation is None:
+            label = (self.current_op or {}).get("label") or ((self.current_op or {}).get("st") or {}).get("label")
+            if label:
+                signature = f"{label}/{signature}"
             self.violation = {
                 "property": prop or self.clause_props.get(clause, self.default_prop),
                 "signature": signature,
@@ -215,6 +219,9 @@ def predict(model: Model, op: dict[str, Any]) -> dict[str, Any]:
         if r["ok"]:
             r = {"ok": True, "rows": None, "rowcount": None}
         return r
+    if op["k"] == "restart":
+        model.restart()
+        return {"ok": True, "rows": None, "rowcount": None}
     if op["k"] == "close":
         model.close(op["s"])
         return {"ok": True, "rows": None, "rowcount": None}
@@ -235,13 +242,14 @@ def run_serial_case(case: dict[str, Any], oracle: Oracle, *, snapshot_every: boo
     focus_hits = 0
     try:
         for op in case["ops"]:
-            if op["k"] != "connect" and op["s"] not in world.conns:
+            if op["k"] not in ("connect", "restart") and op["s"] not in world.conns:
                 continue  # its connect was removed by the minimiser: the op is void
             sim.set_session(op["s"])
             inv = sim.tick()
             out = world.apply(op)
             sim.note(inv, op["s"], op["k"], (op.get("st") or {}).get("t"), out.get("ok"), out.get("errno"), fp(out.get("rows")) if out.get("rows") is not None else None)
             pred = predict(model, op)
+            oracle.current_op = op
             n_done += 1
             t = (op.get("st") or {"t": op["k"]})["t"]
             kinds.append(t + ("!" if not pred["ok"] else ""))
@@ -273,7 +281,9 @@ def run_serial_case(case: dict[str, Any], oracle: Oracle, *, snapshot_every: boo
                 break
         sim.set_session("main")
         final = fp(model.snapshot())
+        cover = sorted(set(getattr(oracle, "cover", [])))
         return {
+            "cover": cover,
             "violations": [oracle.violation] if oracle.violation else [],
             "digest": sim.digest(),
             "steps": sim.engine_events,
